@@ -1,7 +1,7 @@
 //! C18: Value::get / insert / remove on (value, path[, x, prune, q]).
 //! Besides the operation's own outputs it reports the reads the property's laws talk about
 //! (get p before/after, get q before/after) so the laws can be judged on the implementation alone.
-use crate::vj::*;
+use vrl_verif_harness::vj::*;
 use serde_json::{json, Value as J};
 
 pub fn run(case: &J) -> J {
@@ -31,4 +31,8 @@ pub fn run(case: &J) -> J {
         }
         o => json!({"harness_error": format!("bad op {o}")}),
     }
+}
+
+fn main() {
+    vrl_verif_harness::main_loop(run);
 }
